@@ -136,6 +136,11 @@ pub struct ECase {
     method: Method,
     content: Content,
     name_len: u8,
+    /// Some(x): the last extra-data buffer (central part if split, else the shared one) is first delivered
+    /// only up to a cut inside a record, end_extra_data() is called (must refuse the truncated record), then
+    /// the rest is delivered and the sequence continues as usual
+    #[serde(default)]
+    retry_cut: Option<u16>,
 }
 
 fn rec_bytes(rs: &[Rec], tail: &[u8]) -> Vec<u8> {
@@ -188,13 +193,30 @@ fn check_extra(c: &ECase, info: &mut Info) -> Result<(), String> {
     let mut o = Opts::plain(c.method);
     o.large = c.large;
     let name = "x".repeat(1 + c.name_len as usize);
+    let mut retried = false;
     let res: Result<Result<(), String>, String> = catch(|| {
         let ds0 = w.start_file_with_extra_data(name.clone(), o.to_zip()).map_err(|e| format!("start_file_with_extra_data: {e}"))?;
-        w.write_all(&local).map_err(|e| format!("writing extra data: {e}"))?;
+        // deliver `buf`; with retry_cut: first only a prefix that ends inside a record, a refused
+        // end_extra_data(), then the rest
+        let mut deliver = |w: &mut ZipWriter<&mut Cursor<Vec<u8>>>, buf: &[u8], last: bool| -> Result<(), String> {
+            if let (true, Some(x)) = (last && local_ok && central_ok && buf.len() >= 5, c.retry_cut) {
+                let k = 1 + ((x as usize * (buf.len() - 1)) >> 16);
+                if k < buf.len() && !valid(&buf[..k], own) {
+                    retried = true;
+                    w.write_all(&buf[..k]).map_err(|e| format!("writing extra data: {e}"))?;
+                    if w.end_extra_data().is_ok() {
+                        return Err(format!("end_extra_data accepted extra data that ends inside a record ({k} of {} bytes delivered)", buf.len()));
+                    }
+                    return w.write_all(&buf[k..]).map_err(|e| format!("writing the rest of the extra data after the refused end_extra_data: {e}"));
+                }
+            }
+            w.write_all(buf).map_err(|e| format!("writing extra data: {e}"))
+        };
+        deliver(&mut w, &local, central.is_none())?;
         let mut ds = ds0;
         if let Some(cb) = &central {
             ds = w.end_local_start_central_extra_data().map_err(|e| format!("REJECT end_local_start_central_extra_data: {e}"))?;
-            w.write_all(cb).map_err(|e| format!("writing central extra data: {e}"))?;
+            deliver(&mut w, cb, true)?;
         }
         let ds2 = w.end_extra_data().map_err(|e| format!("REJECT end_extra_data: {e}"))?;
         if central.is_some() && ds2 != ds {
@@ -206,6 +228,8 @@ fn check_extra(c: &ECase, info: &mut Info) -> Result<(), String> {
         Ok(())
     });
     let res = res.map_err(|p| format!("extra-data calls PANICKED: {p}"))?;
+    info.label_if(retried, "truncated record refused, then completed and ended again");
+    let res = if retried { res.map_err(|e| format!("{e} [the data had first been delivered up to a cut inside a record, end_extra_data() refused it, then the rest was delivered]")) } else { res };
     match res {
         Err(e) if e.contains("REJECT") => {
             if clearly(&local) && central.as_ref().map(|b| clearly(b)).unwrap_or(true) {
@@ -336,8 +360,8 @@ pub fn run(ctx: &mut Ctx) {
             let rec = (id, prop_oneof![6 => 0u16..40, 1 => Just(0u16), 1 => 30000u16..=65531, 1 => Just(65531u16), 1 => Just(65511u16)], any::<u8>()).prop_map(|(id, len, fill)| Rec { id, len, fill });
             let recs = || proptest::collection::vec(rec.clone(), 0..4);
             let tail = || prop_oneof![16 => Just(vec![]), 1 => proptest::collection::vec(any::<u8>(), 1..4), 1 => Just(vec![0xef, 0xbe, 0x10, 0x00, 1, 2, 3])];
-            (recs(), prop_oneof![1 => Just(None), 1 => recs().prop_map(Some)], tail(), tail(), any::<bool>(), prop_oneof![Just(Method::Stored), Just(Method::Deflated), Just(Method::Bzip2)], crate::refzip::content::content(3000), any::<u8>())
-                .prop_map(|(local, central, local_tail, central_tail, large, method, content, name_len)| ECase { local, central_tail: if central.is_some() { central_tail } else { vec![] }, central, local_tail, large, method, content, name_len })
+            (recs(), prop_oneof![1 => Just(None), 1 => recs().prop_map(Some)], tail(), tail(), any::<bool>(), prop_oneof![Just(Method::Stored), Just(Method::Deflated), Just(Method::Bzip2)], crate::refzip::content::content(3000), any::<u8>(), prop_oneof![2 => Just(None), 1 => any::<u16>().prop_map(Some)])
+                .prop_map(|(local, central, local_tail, central_tail, large, method, content, name_len, retry_cut)| ECase { local, central_tail: if central.is_some() { central_tail } else { vec![] }, central, local_tail, large, method, content, name_len, retry_cut })
                 .boxed()
         },
         &|c: &ECase, info: &mut Info| Verdict::from_result(check_extra(c, info)),
